@@ -4,8 +4,11 @@
 package main
 
 import (
+	"bytes"
 	"context"
+	"crypto/ecdsa"
 	"crypto/ed25519"
+	"crypto/elliptic"
 	"crypto/rand"
 	"crypto/x509"
 	"encoding/json"
@@ -98,11 +101,40 @@ func longTerm() []*lkey {
 	return lkeys
 }
 
+var (
+	padMu   sync.Mutex
+	padKeys = map[string]*lkey{}
+	e1Once  sync.Once
+	e1Key   *ecdsa.PrivateKey
+	e1Sign  ssh.Signer
+)
+
+// e1: a long-term ECDSA P-384 key of the user (the type the RA generates its request keys with)
+func e1() (*ecdsa.PrivateKey, ssh.Signer) {
+	e1Once.Do(func() {
+		e1Key, _ = ecdsa.GenerateKey(elliptic.P384(), rand.Reader)
+		e1Sign, _ = ssh.NewSignerFromKey(e1Key)
+	})
+	return e1Key, e1Sign
+}
+
 func lk(name string) *lkey {
 	for _, k := range longTerm() {
 		if k.name == name {
 			return k
 		}
+	}
+	if strings.HasPrefix(name, "P") { // padding identities, generated on demand
+		padMu.Lock()
+		defer padMu.Unlock()
+		if k, ok := padKeys[name]; ok {
+			return k
+		}
+		_, p, _ := ed25519.GenerateKey(rand.Reader)
+		sg, _ := ssh.NewSignerFromKey(p)
+		k := &lkey{name, p, sg}
+		padKeys[name] = k
+		return k
 	}
 	panic("key " + name)
 }
@@ -127,6 +159,17 @@ func (n *namer) key(pub ssh.PublicKey) string {
 		if string(k.signer.PublicKey().Marshal()) == b {
 			return k.name
 		}
+	}
+	padMu.Lock()
+	for _, k := range padKeys {
+		if string(k.signer.PublicKey().Marshal()) == b {
+			padMu.Unlock()
+			return k.name
+		}
+	}
+	padMu.Unlock()
+	if _, sg := e1(); string(sg.PublicKey().Marshal()) == b {
+		return "E1"
 	}
 	n.mu.Lock()
 	defer n.mu.Unlock()
@@ -169,6 +212,7 @@ type sagent struct {
 	events  []string
 	lastSig map[string]*ssh.Signature // per key name: signature over the previous challenge
 	chals   *[]string
+	dups    map[string]bool // blobs the agent lists twice
 }
 
 func (a *sagent) gate() error {
@@ -194,7 +238,25 @@ func (a *sagent) List() ([]*sshagent.Key, error) {
 		return nil, err
 	}
 	a.events = append(a.events, "list:1")
-	return a.ring.List()
+	keys, err := a.ring.List()
+	if err != nil {
+		return keys, err
+	}
+	// an agent that lists some identities twice
+	var out []*sshagent.Key
+	for _, k := range keys {
+		out = append(out, k)
+		if a.dups[string(k.Blob)] {
+			out = append(out, k)
+		}
+	}
+	// … or that ends its answer with one more identity: the user's own long-term P-384 key under
+	// the comment the RA gives the keys it generates
+	if strings.HasSuffix(a.behav, "+le") {
+		_, sg := e1()
+		out = append(out, &sshagent.Key{Format: sg.PublicKey().Type(), Blob: sg.PublicKey().Marshal(), Comment: "private-key"})
+	}
+	return out, nil
 }
 
 func (a *sagent) Sign(key ssh.PublicKey, data []byte) (*ssh.Signature, error) {
@@ -216,9 +278,14 @@ func (a *sagent) SignWithFlags(key ssh.PublicKey, data []byte, flags sshagent.Si
 	if err := a.gate(); err != nil {
 		return nil, err
 	}
-	honest := func(k ssh.PublicKey, d []byte) (*ssh.Signature, error) { return a.ring.Sign(k, d) }
+	honest := func(k ssh.PublicKey, d []byte) (*ssh.Signature, error) {
+		if _, sg := e1(); strings.HasSuffix(a.behav, "+le") && bytes.Equal(k.Marshal(), sg.PublicKey().Marshal()) {
+			return sg.Sign(rand.Reader, d) // the extra identity is genuinely held
+		}
+		return a.ring.Sign(k, d)
+	}
 	switch {
-	case a.behav == "honest":
+	case a.behav == "honest" || a.behav == "honest+le":
 		s, err := honest(key, data)
 		if err == nil {
 			a.lastSig[name] = s
@@ -517,16 +584,20 @@ func runGS(args []string) []string {
 	certN := 0
 	var chals []string
 	lastSig := map[string]*ssh.Signature{}
+	dups := map[string]bool{}
 	if args[0] != "-" {
 		for _, id := range strings.Split(args[0], ",") {
 			p := strings.Split(id, ":")
-			if p[0] == "c" { // a foreign certificate over a long-term key
+			if p[0] == "c" || p[0] == "cc" { // a foreign certificate over a long-term key ("cc": the agent lists it twice)
 				k := lk(p[1])
 				certN++
 				c := &ssh.Certificate{Key: k.signer.PublicKey(), Serial: uint64(certN), CertType: ssh.UserCert, KeyId: "pre", ValidBefore: ssh.CertTimeInfinity}
 				c.SignCert(rand.Reader, caKey)
 				nm.certs[string(c.Marshal())] = fmt.Sprintf("c%d", certN)
 				ring.Add(sshagent.AddedKey{PrivateKey: &k.priv, Certificate: c, Comment: string(hx.UnHex(p[2]))})
+				if p[0] == "cc" {
+					dups[string(c.Marshal())] = true
+				}
 			} else {
 				k := lk(p[0])
 				ring.Add(sshagent.AddedKey{PrivateKey: &k.priv, Comment: string(hx.UnHex(p[1]))})
@@ -595,7 +666,7 @@ func runGS(args []string) []string {
 		}
 		// forwarded agent
 		cc, sc := socketPair()
-		ag := &sagent{ring: ring, nm: nm, behav: r["ag"], failAt: atoiOr(r["failat"], -1), closeAt: atoiOr(r["closeat"], -1), conn: sc, lastSig: lastSig, chals: &chals}
+		ag := &sagent{ring: ring, nm: nm, behav: r["ag"], failAt: atoiOr(r["failat"], -1), closeAt: atoiOr(r["closeat"], -1), conn: sc, lastSig: lastSig, chals: &chals, dups: dups}
 		go func() { sshagent.ServeAgent(ag, sc); sc.Close() }()
 		var tr []string
 		ag.events = nil
@@ -703,6 +774,9 @@ func runGS(args []string) []string {
 		for _, k := range keys {
 			pub, _ := ssh.ParsePublicKey(k.Blob)
 			ids = append(ids, nm.key(pub)+":"+nm.cert(pub)+":"+hx.HexS(k.Comment))
+			if dups[string(k.Blob)] { // listed twice, as the agent itself does
+				ids = append(ids, nm.key(pub)+":"+nm.cert(pub)+":"+hx.HexS(k.Comment))
+			}
 		}
 		sort.Strings(ids)
 		outs = append(outs, fmt.Sprintf("res=%s tr=%s chal=%s ag=[%s] csr=[%s]", res, strings.Join(tr, ">"), chal, strings.Join(ids, "|"), strings.Join(csrs, "|")))
